@@ -38,7 +38,7 @@ func TestVerifGrpcProxyRoundTrip(t *testing.T) {
 			sizes = append(sizes, 1+rng.Intn(6<<20))
 		}
 	}
-	rec.Set("rule", "CAS blobs of sizes 1 B .. 5 MiB around the upload chunk size (maxChunkSize) and the 4 MiB gRPC message limit: Put through the proxy client, wait for the asynchronous upload, Contains and Get back")
+	rec.Set("rule", "CAS blobs of sizes 1 B .. 5 MiB around the upload chunk size (maxChunkSize) and the 4 MiB gRPC message limit: Put through the proxy client, wait for the asynchronous upload, Contains and Get back (size stated and not stated)")
 	for _, n := range sizes {
 		rec.Case()
 		data := rng.Bytes(n)
@@ -83,5 +83,42 @@ func TestVerifGrpcProxyRoundTrip(t *testing.T) {
 		if rerr != nil || !bytes.Equal(got, data) || (sz >= 0 && sz != int64(n)) {
 			rec.Violation("C12", "grpcproxy.get-differs", fmt.Sprintf("Get of a %d-byte blob returned %d bytes (size %d, err %v)", n, len(got), sz, rerr), map[string]int{"size": n})
 		}
+	}
+	// a caller that does not know the size (HTTP GET): the client asks the back end for the size first
+	// (Remote Asset API of a bazel-remote peer) and then reads under the published resource name
+	for _, mode := range []string{"uncompressed", "zstd"} {
+		fx := newFixture(t, nil, mode)
+		px := New(fx.clients, mode, logger, logger, 100, 100)
+		for _, n := range []int{1, 100, 70000, maxChunkSize + 1} {
+			rec.Case()
+			data := rng.Bytes(n)
+			sum := sha256.Sum256(data)
+			hash := hex.EncodeToString(sum[:])
+			if err := fx.cache.Put(ctx, cache.CAS, hash, int64(n), bytes.NewReader(data)); err != nil {
+				t.Fatal(err)
+			}
+			rc, sz, err := px.Get(ctx, cache.CAS, hash, -1)
+			rec.Note(fmt.Sprintf("unknown-size get mode=%s size=%d -> reader=%v size=%d err=%v", mode, n, rc != nil, sz, err))
+			rec.Distinct(fmt.Sprintf("unknown:%s:%d", mode, n))
+			if err != nil || rc == nil {
+				rec.Violation("C12,C20", "grpcproxy.get-unknown-size", fmt.Sprintf("%s mode: Get with unknown size of a %d-byte blob the back end holds: reader=%v err=%v", mode, n, rc != nil, err), map[string]int{"size": n})
+				continue
+			}
+			var got []byte
+			var rerr error
+			func() {
+				defer func() {
+					if r := recover(); r != nil {
+						rerr = fmt.Errorf("panic while reading: %v", r)
+					}
+				}()
+				got, rerr = io.ReadAll(rc)
+				_ = rc.Close()
+			}()
+			if rerr != nil || sz != int64(n) || (mode == "uncompressed" && !bytes.Equal(got, data)) {
+				rec.Violation("C12,C20", "grpcproxy.get-unknown-size-differs", fmt.Sprintf("%s mode: Get with unknown size of a %d-byte blob returned %d bytes (size %d, err %v)", mode, n, len(got), sz, rerr), map[string]int{"size": n})
+			}
+		}
+		fx.server.Stop()
 	}
 }
